@@ -12,6 +12,8 @@ import z3
 from ttvc import harness as H, tensors as T, interp as I
 from ttvc.oblig import scenario
 from .common import *
+from ttvc.terms import fresh_int
+from ttvc.tensors import to_int, STensor
 from . import c06 as _c06
 
 LEVEL = 'exploration'
@@ -72,3 +74,60 @@ def _interfaces(ob, which, d, k):
 
 scenario('C11', 'interfaces', ['torchtt._amen._compute_phi_fwd_AB', 'torchtt._amen._compute_phi_bck_AB', 'torchtt._amen._compute_phi_fwd_x', 'torchtt._amen._compute_phi_bck_x', 'torchtt._amen._local_AB'],
          quick=[dict(which='mm', d=d, k=k) for d in (1, 2, 3) for k in range(d)], replay=None, max_paths=50)(_interfaces)
+
+
+@scenario('C11', 'dmrg.supercore', ['torchtt._dmrg.dmrg_matvec_python', 'torchtt._dmrg.dmrg_hadamard_python'],
+          quick=[dict(which=w, guess=g) for w in ('fast_matvec', 'dmrg_hadamard') for g in (False, True)], replay='dmrg_frame', max_paths=400)
+def dmrg_supercore(ob, which, guess):
+    """order 2, complex operands: in the first sweep the matrix that is handed to the SVD (and truncated by rank_chop) is, entry by
+    entry, the complex conjugate of the exact product  (A x)[m0, m1]  resp.  (x * y)[n0, n1]  -- whatever the initial guess is.
+    (For higher orders the super-core is the projection of the product on the current interfaces; not stated here.)"""
+    from . import hooks
+    ex = ob.ex
+    hooks.install(ex)
+    svd_args = []
+
+    def spy(ex_, f, args, kwargs):
+        svd_args.append(args[0])
+        return NotImplemented               # the body of SVD() is executed as usual
+    ex.call_hooks['torchtt._decomposition.SVD'] = spy
+    d = 2
+    if which == 'fast_matvec':
+        A = ob.tt('A', d, ttm=True, dtype='complex128')
+        x = ob.tt('x', d, N=A.N_, dtype='complex128')
+        g = ob.tt('g', d, N=A.M_, dtype='complex128') if guess else None
+        ob.replay_args = {'which': which, 'A': 'A', 'x': 'x', 'g': 'g' if guess else None, 'nswp': 2, 'check_value': True}
+        r = ex.call(ex.getattr(A, 'fast_matvec'), [x], {'initial': g, 'nswp': 1})
+        out_sizes = A.M_
+    else:
+        A = ob.tt('x', d, dtype='complex128')
+        x = ob.tt('y', d, N=A.N_, dtype='complex128')
+        g = ob.tt('g', d, N=A.N_, dtype='complex128') if guess else None
+        ob.replay_args = {'which': which, 'A': 'x', 'x': 'y', 'g': 'g' if guess else None, 'nswp': 2, 'check_value': True}
+        r = ex.call(ex.module('torchtt._dmrg').env['dmrg_hadamard'], [A, x], {'z0': g, 'nswp': 1})
+        out_sizes = A.N_
+    ob.prove('one_truncated_svd', len(svd_args) == 1)
+    if len(svd_args) != 1:
+        return
+    W = svd_args[0]
+    if not isinstance(W, STensor) or W._val is None or W.ndim != 2:
+        ob.undecided('supercore_is_the_conjugated_product', 'value', 'value of the SVD input is not tracked')
+        return
+    ob.prove('supercore_shape', z3.And(to_int(W.shape[0]) == out_sizes[0], to_int(W.shape[1]) == out_sizes[1]), 'shape')
+    i0, i1 = fresh_int('m0'), fresh_int('m1')
+    ex.assume(z3.And(i0 >= 0, i0 < out_sizes[0], i1 >= 0, i1 < out_sizes[1]))
+    fa, fb = W.axes[0].factors, W.axes[1].factors
+    ia = tuple(i0 if not T.known_eq(f.size, 1) else 0 for f in fa) if sum(1 for f in fa if not T.known_eq(f.size, 1)) <= 1 else None
+    ib = tuple(i1 if not T.known_eq(f.size, 1) else 0 for f in fb) if sum(1 for f in fb if not T.known_eq(f.size, 1)) <= 1 else None
+    if ia is None or ib is None:
+        ob.undecided('supercore_is_the_conjugated_product', 'value', 'unexpected factor structure of the SVD input')
+        return
+    got = W.at([ia, ib])
+    if which == 'fast_matvec':
+        n0, n1 = fresh_int('n0'), fresh_int('n1')
+        want = (val(ob, A, [(i0, n0), (i1, n1)]) * val(ob, x, [n0, n1])).summed(n0, A.N_[0]).summed(n1, A.N_[1])
+    else:
+        want = val(ob, A, [i0, i1]) * val(ob, x, [i0, i1])
+    ob.prove_eq('supercore_is_the_conjugated_product', got, want.conj())
+    ob.wf(r)
+    ob.frame()
